@@ -368,3 +368,76 @@ pub fn c01_fronts(_args: &[String]) {
     body!(AssetCache::with_source(hot), "AssetCache+reloader");
     rep.print();
 }
+
+// ---------------------------------------------------------------------------
+// C02 / C01: many types under one id (key = (type, id), whatever the hash seed)
+// ---------------------------------------------------------------------------
+pub struct Many<const I: usize>(pub usize);
+impl<const I: usize> assets_manager::Storable for Many<I> {}
+
+macro_rules! many {
+    ($mac:ident, $($args:tt)*) => {
+        $mac!($($args)*; 0 1 2 3 4 5 6 7 8 9 10 11 12 13 14 15 16 17 18 19 20 21 22 23 24 25 26 27 28 29 30 31
+              32 33 34 35 36 37 38 39 40 41 42 43 44 45 46 47 48 49 50 51 52 53 54 55 56 57 58 59 60 61 62 63);
+    };
+}
+
+/// `amv c02-types <seed> <caches>`
+pub fn c02_types(args: &[String]) {
+    let caches: usize = args.get(1).and_then(|s| s.parse().ok()).unwrap_or(20);
+    let mut rep = Report::default();
+    let src = MemSource::new(false);
+    std::panic::set_hook(Box::new(|_| {}));
+    for round in 0..caches {
+        for local in [false, true] {
+            rep.cases += 1;
+            let mut bad: Vec<String> = Vec::new();
+            macro_rules! phase {
+                ($cache:ident; $($i:literal)*) => {{
+                    // 1. store the even types under the same id
+                    $( if $i % 2 == 0 { let _ = $cache.get_or_insert::<Many<$i>>("k", Many($i)); } )*
+                    // 2. every type sees exactly its own entry
+                    $(
+                        rep.checks += 1;
+                        let want = $i % 2 == 0;
+                        let c = $cache.contains::<Many<$i>>("k");
+                        let g = std::panic::catch_unwind(std::panic::AssertUnwindSafe(|| $cache.get_cached::<Many<$i>>("k").map(|h| h.read().0)));
+                        match g {
+                            Ok(v) if c == want && v == if want { Some($i) } else { None } => {}
+                            Ok(v) => bad.push(format!("type #{}: contains={c}, get_cached={v:?}, stored={want}", $i)),
+                            Err(_) => bad.push(format!("type #{}: get_cached panicked (stored={want})", $i)),
+                        }
+                    )*
+                    // 3. removing an absent key removes nothing; removing a present one removes only it
+                    $( if $i % 4 == 1 { if $cache.remove::<Many<$i>>("k") { bad.push(format!("remove of absent type #{} reported true", $i)); } } )*
+                    $( if $i % 4 == 0 { if !$cache.remove::<Many<$i>>("k") { bad.push(format!("remove of present type #{} reported false", $i)); } } )*
+                    $(
+                        let want = $i % 4 == 2;
+                        if $cache.contains::<Many<$i>>("k") != want {
+                            bad.push(format!("after removals: type #{} present={}, expected {want}", $i, !want));
+                        }
+                        if want {
+                            let t = std::panic::catch_unwind(std::panic::AssertUnwindSafe(|| $cache.take::<Many<$i>>("k").map(|v| v.0)));
+                            if t.ok().flatten() != Some($i) {
+                                bad.push(format!("take of type #{} did not hand back its own value", $i));
+                            }
+                        }
+                    )*
+                }};
+            }
+            if local {
+                let mut cache = LocalAssetCache::with_source(src.clone());
+                many!(phase, cache);
+            } else {
+                let mut cache = AssetCache::without_hot_reloading(src.clone());
+                many!(phase, cache);
+            }
+            if !bad.is_empty() {
+                rep.mismatch(json!({"what":"entries with the same id and different types affect each other","front": if local {"LocalAssetCache"} else {"AssetCache"},
+                    "cache_instance":round,"first_anomalies":bad.iter().take(4).collect::<Vec<_>>(),"anomalies":bad.len()}));
+            }
+        }
+    }
+    let _ = std::panic::take_hook();
+    rep.print();
+}
